@@ -280,3 +280,46 @@ def o05_3(tier):
         out.append(("double_y,5x5-square,default,allow_negatives=False", mk("double_y", 5, None, False, False)))
     out.append(("fix_stress", mk_fix("tri_star", 2)))
     return out
+
+
+@obligation("O16.5", ["C16", "C10", "C05"],
+            ["forsys.fmatrix:ForceMatrix.solve", "forsys.fmatrix:ForceMatrix.get_solution_no_discarded", "forsys.fmatrix:ForceMatrix.get_new_initial_condition"],
+            "solve() with interfaces excluded by an angle limit: the restricted system (columns = remaining interfaces) reaches the back end; the result has one "
+            "entry per internal interface, -1 at the excluded positions and the restricted solution, in order, elsewhere; remaining interfaces' mesh edges carry "
+            "their value, excluded ones are reset to 0; no exception escapes (default, lsq and lsq_linear back ends)", tier="Pn")
+def o16_5(tier):
+    def mk(shape, restrict, method):
+        def h(ctx):
+            m, fr, fm, internal, used, mm, t0, deletes = solve_fixture(ctx, shape, 1, 2, restrict=restrict)
+            c = len(used)
+            log = []
+            if ctx.mode == "sym":
+                install_solvers(ctx, log)
+            kw = dict(allow_negatives=False)
+            if method:
+                kw["method"] = method
+            res = ctx.callm(fm, "solve", ctx.dict(), **kw)
+            ctx.ensure(ctx.keys(res) == list(range(len(internal))), "one reported value per internal interface")
+            if ctx.mode == "sym":
+                kind, A = log[-1][0], log[-1][1]
+                ctx.ensure(A.shape[1] == c + 1, "the system handed to the back end has one column per remaining interface plus the multiplier")
+            rank = 0
+            for i, p in enumerate(internal):
+                v = ctx.item(res, i)
+                if i in restrict:
+                    ctx.ensure(ctx.close(v, -1), f"excluded interface {i} reported as -1")
+                    for eid in edges_of_path(m, p):
+                        ctx.ensure(ctx.zero(ctx.get(m.e[eid], "tension")), f"excluded interface {i}: mesh edge {eid} carries no tension from any solve")
+                else:
+                    if ctx.mode == "sym":
+                        ctx.ensure(v == ctx.symbols[result_symbol(log, kind, rank)], f"interface {i} gets entry {rank} of the restricted solution")
+                    ctx.ensure(v >= 0, f"interface {i}: non-negative")
+                    for eid in edges_of_path(m, p):
+                        ctx.ensure(ctx.close(ctx.get(m.e[eid], "tension"), v), f"interface {i}: mesh edge {eid} carries its value")
+                    rank += 1
+        return h
+    out = []
+    for method in (None, "lsq", "lsq_linear"):
+        out.append((f"double_y,exclude-middle,{method or 'default'}", mk("double_y", [0], method)))
+    out.append(("double_y,exclude-two,lsq", mk("double_y", [1, 3], "lsq")))
+    return out
